@@ -146,6 +146,10 @@ func catalog(p ScenParams) *WSpec {
 	case "g10": // independent branch to the sink + a port-less process
 		w.Procs = []ProcSpec{src, simpleProc("p", kind), {Name: "x", Kind: "portless"}}
 		w.Edges = []Edge{fe("src", "out", "p", "in")}
+	case "g10b": // fan-out to a leaf that ends in the sink and to a process without out-ports (the driver)
+		last := ProcSpec{Name: "last", Kind: kind, Ins: []string{"in"}}
+		w.Procs = []ProcSpec{src, simpleProc("p", kind), simpleProc("q", kind), last}
+		w.Edges = []Edge{fe("src", "out", "p", "in"), fe("p", "out", "q", "in"), fe("p", "out", "last", "in")}
 	case "g11": // chain ending in a process without out-ports
 		last := ProcSpec{Name: "last", Kind: kind, Ins: []string{"in"}}
 		w.Procs = []ProcSpec{src, simpleProc("p", kind), last}
@@ -167,6 +171,11 @@ func catalog(p ScenParams) *WSpec {
 		tg := ProcSpec{Name: "tg", Kind: "tagger", TagKey: "k", Ins: []string{"in"}}
 		w.Procs = []ProcSpec{src, simpleProc("p", kind), tg, simpleProc("c", kind), simpleProc("d", kind)}
 		w.Edges = []Edge{fe("src", "out", "p", "in"), fe("p", "out", "tg", "in"), fe("p", "out", "c", "in"), fe("tg", "out", "d", "in")}
+	case "g14b": // two tagging steps down a chain: src -> p -> tg1 -> d -> tg2 -> e
+		tg1 := ProcSpec{Name: "tg", Kind: "tagger", TagKey: "k", Ins: []string{"in"}}
+		tg2 := ProcSpec{Name: "tg2", Kind: "tagger", TagKey: "k2", Ins: []string{"in"}}
+		w.Procs = []ProcSpec{src, simpleProc("p", kind), tg1, simpleProc("d", kind), tg2, simpleProc("e", kind)}
+		w.Edges = []Edge{fe("src", "out", "p", "in"), fe("p", "out", "tg", "in"), fe("tg", "out", "d", "in"), fe("d", "out", "tg2", "in"), fe("tg2", "out", "e", "in")}
 	case "g14a": // tagging alone in a chain
 		tg := ProcSpec{Name: "tg", Kind: "tagger", TagKey: "k", Ins: []string{"in"}}
 		w.Procs = []ProcSpec{src, simpleProc("p", kind), tg, simpleProc("d", kind)}
@@ -201,6 +210,17 @@ func catalog(p ScenParams) *WSpec {
 		if ps := w.proc("p"); ps != nil {
 			ps.Kind = "func"
 			ps.WriteIdiom = true
+		}
+	case "dirout": // the output of p is a DIRECTORY with two files (mkdir {o:out} && write into it)
+		if ps := w.proc("p"); ps != nil {
+			ps.Kind = "cmd"
+			ps.DirOut = true
+		}
+	case "emptyparam-setout": // an empty string is a legal parameter value when it is only used in the path pattern
+		if ps := w.proc("p"); ps != nil {
+			ps.Kind = "func"
+			ps.ParamsNotInCmd = true
+			ps.FromStr["a"][1] = ""
 		}
 	case "emptyparam": // a task that cannot be formed: empty parameter value
 		if ps := w.proc("p"); ps != nil {
